@@ -8,7 +8,7 @@ from pathlib import Path
 
 ROOT = Path(__file__).resolve().parent.parent
 
-TRUST = ("Trusted: CPython 3.12 + asyncio, protobuf runtime, cryptography primitives, the harness (engine S rotates, per scenario and recorded in every witness: client debug flag, clock start incl. a month of uptime, address family, errno of a dying link, loop debug mode, the Python form of the stop callback, chunking of the device's stream; process monotonic clocks follow the simulated clock). "
+TRUST = ("Trusted: CPython 3.12 + asyncio, protobuf runtime, cryptography primitives, the harness (engine S rotates, per scenario and recorded in every witness: client debug flag, clock start incl. a month of uptime, address family, errno of a dying link, loop debug mode, the Python form of the stop callback, chunking of the device's stream, firmware flavour of default devices (hello without a name / API 1.2, 1.8, 1.12 / deep sleep), display and log names with formatting-special characters, module loggers disagreeing about DEBUG; process monotonic clocks follow the simulated clock; a quarter of each check's worker processes runs under python -O, a quarter with DeprecationWarnings as errors, and for C04/C08/C12 a quarter on the pure-Python protobuf back end). "
          "Oracles use an independent codec / Noise responder / api.proto text parser / executable models, never the code under test.")
 
 # id -> (engine, category, level text, technique, design_ref)
@@ -17,7 +17,7 @@ CHECKS: dict[str, tuple[str, str, str, str, str]] = {
             "Runtime monitor on the real APIPlaintextFrameHelper: every process_packet call is recorded with the index of the "
             "data_received call that produced it and compared with an independent decoder's byte-offset bookkeeping, over "
             "~200k (quick) generated stream x segmentation x buffer-type cases, incl. ALL segmentations of short streams. "
-            "Held = held on these executions. Chunk objects include bytes-like types whose items are wider than one byte or that are two-dimensional; bursts of 129-6000 complete small frames in one chunk; several helpers alive at once fed alternately; library logger at DEBUG for every third helper. Part S: the real helper under the real selector transport and connection - frames of unknown type between known ones under five segmentations, and the client answering from inside the read loop with its write buffer at the transport's high-water mark. Also: the reply's send() failing (EPIPE / ECONNRESET) with frames still pending in the chunk.",
+            "Held = held on these executions. Chunk objects include bytes-like types whose items are wider than one byte or that are two-dimensional; bursts of 129-6000 complete small frames in one chunk; several helpers alive at once fed alternately; library logger at DEBUG for every third helper. Part S: the real helper under the real selector transport and connection - frames of unknown type between known ones under five segmentations, and the client answering from inside the read loop with its write buffer at the transport's high-water mark. Also: the reply's send() failing (EPIPE / ECONNRESET) with frames still pending in the chunk. KeyboardInterrupt / SystemExit inside a callback with the loop resumed afterwards.",
             "runtime monitoring: recorded delivery trace vs independent reference decoder (offset oracle), exhaustive small segmentations",
             "DESIGN.md §4 C01"),
     "C02": ("W+S", "exploration",
@@ -37,19 +37,19 @@ CHECKS: dict[str, tuple[str, str, str, str, str]] = {
             "Enumerates one deviation per session - every byte position of every frame (bit flip, replacement), every truncation length, "
             "replay/swap/drop, every handshake-phase deviation, framing mismatches both ways, key strings of every decoded length - each in 4 "
             "chunk placements, and judges the recorded deliveries (byte-exact prefix, nothing at/after the deviation), close, error class and "
-            "readiness outcome. Held = held on the enumerated faults. 'Nothing following the deviation is delivered' is judged for every deviation except a changed unauthenticated hello name; every bit of every header byte; non-ASCII key strings; part S repeats seven deviation kinds on live sessions at the APIClient boundary, the same malformed key configured repeatedly (two clients), and a device that has the key but another name (name in the ServerHello, with a MAC field behind it, or only in the API hello): BadNameAPIError, nothing written to it after the ServerHello, nothing of it delivered. A deviating answer and the 30 s handshake deadline in one loop iteration (exact tie / process stopped across it): the pending wait gets the specific error.",
+            "readiness outcome. Held = held on the enumerated faults. 'Nothing following the deviation is delivered' is judged for every deviation except a changed unauthenticated hello name; every bit of every header byte; non-ASCII key strings; part S repeats seven deviation kinds on live sessions at the APIClient boundary, the same malformed key configured repeatedly (two clients), and a device that has the key but another name (name in the ServerHello, with a MAC field behind it, or only in the API hello): BadNameAPIError, nothing written to it after the ServerHello, nothing of it delivered. A deviating answer and the 30 s handshake deadline in one loop iteration (exact tie / process stopped across it): the pending wait gets the specific error. Expected name a prefix of / extended by the announced one; log names with formatting-special characters.",
             "runtime monitoring with fault injection: enumerated single-frame corruptions judged by prefix/closed/error-class oracle",
             "DESIGN.md §4 C04"),
     "C05": ("S", "fault_enumeration",
             "Online transition monitor (descriptor on APIConnection.connection_state logs every write with its predecessor) over the real "
             "library on a stepped asyncio loop: every close cause x every injection point (loop iteration x ready-queue index / zero-delay timer / "
             "before-select network event / mid-wait instant) of 11 (quick) lifecycle baselines, closing bytes in the phase-completing chunk, "
-            "sampled fault pairs, plus reuse probes and is_connected == (state is CONNECTED) at every iteration boundary. Further clauses: a disconnect()/force disconnect that returned leaves the object CLOSED for good, a failed or cancelled connect phase leaves its object CLOSED; extra sweeps: resolver/TCP/setsockopt/rejection worlds, same-turn pairs (both orders), stalled-connect and abandoned-disconnect histories, sessions opened from inside the previous session's stop callback; a fatal error reported to the connection has taken effect (state CLOSED) when the report returns. Close causes include ETIMEDOUT (builtin TimeoutError from recv). High-water sweep: the write that pushes the transport over its high-water mark is an awaited request / disconnect / ping / command. Answer-at-the-deadline sweep (tie, stopped process); keep-alive 0 / int / 1e6 with closing tails; TCP accept-then-reset.",
+            "sampled fault pairs, plus reuse probes and is_connected == (state is CONNECTED) at every iteration boundary. Further clauses: a disconnect()/force disconnect that returned leaves the object CLOSED for good, a failed or cancelled connect phase leaves its object CLOSED; extra sweeps: resolver/TCP/setsockopt/rejection worlds, same-turn pairs (both orders), stalled-connect and abandoned-disconnect histories, sessions opened from inside the previous session's stop callback; a fatal error reported to the connection has taken effect (state CLOSED) when the report returns. Close causes include ETIMEDOUT (builtin TimeoutError from recv). High-water sweep: the write that pushes the transport over its high-water mark is an awaited request / disconnect / ping / command. Answer-at-the-deadline sweep (tie, stopped process); keep-alive 0 / int / 1e6 with closing tails; TCP accept-then-reset. Hello-content sweep (no name / API minors / deep sleep x endings, incl. a device-info answer and a hang-up in one chunk).",
             "runtime monitoring: online state-transition checker on hooked slot writes under enumerated fault x loop-step injection",
             "DESIGN.md §4 C05"),
     "C07": ("S", "fault_enumeration",
             "Per-connection on_stop counter (wrapper installed at APIConnection construction) + graceful-initiation event log, judged by an "
-            "exactly-once / right-argument oracle over the same fault x injection-point enumeration plus ordered pairs of close causes. 'Before the connection closed' is the CLOSED write; same-turn pairs in both orders, stalled-connect and abandoned-disconnect histories; a lost transport or a peer silent for more than 8 keep-alive periods on an established session must have fired the callback. The application's callback is a distinct object per session and is attributed to its session, incl. sessions opened on the same client from inside the previous stop callback; sockets answer shutdown() with ENOTCONN after a peer reset as the kernel does (calibrated). Also with the client object built outside the running loop, and with no reference to the client object kept after connecting (garbage collected). A socket-boundary oracle knows a device's DisconnectRequest from the bytes the client's socket handed out (not from the library's dispatch); last-words chunks [request, DisconnectRequest] on a socket that no longer takes data; high-water sweep. The stop callback's Python form rotates (coroutine function / bound method of a temporary / partial / callable object); answer-at-the-deadline and keep-alive-value sweeps.",
+            "exactly-once / right-argument oracle over the same fault x injection-point enumeration plus ordered pairs of close causes. 'Before the connection closed' is the CLOSED write; same-turn pairs in both orders, stalled-connect and abandoned-disconnect histories; a lost transport or a peer silent for more than 8 keep-alive periods on an established session must have fired the callback. The application's callback is a distinct object per session and is attributed to its session, incl. sessions opened on the same client from inside the previous stop callback; sockets answer shutdown() with ENOTCONN after a peer reset as the kernel does (calibrated). Also with the client object built outside the running loop, and with no reference to the client object kept after connecting (garbage collected). A socket-boundary oracle knows a device's DisconnectRequest from the bytes the client's socket handed out (not from the library's dispatch); last-words chunks [request, DisconnectRequest] on a socket that no longer takes data; high-water sweep. The stop callback's Python form rotates (coroutine function / bound method of a temporary / partial / callable object); answer-at-the-deadline and keep-alive-value sweeps. Hello-content sweep (a deep-sleeping device that is asked for its info and then falls silent; API < 1.3 devices saying goodbye).",
             "runtime monitoring: exactly-once counter + event-order oracle under enumerated single and paired close causes",
             "DESIGN.md §4 C07"),
     "C08": ("S", "fault_enumeration",
@@ -62,13 +62,13 @@ CHECKS: dict[str, tuple[str, str, str, str, str]] = {
             "Call recorder in virtual time + fatal-cause recorder: every awaited call must return within its documented bound (none pending at the "
             "400 s horizon or when the world is idle forever), raise only APIConnectionError subclasses (CancelledError only when the harness "
             "cancelled that task), and carry the first fatal cause; faults incl. resolver/TCP errors and hangs, at every injection point, singly "
-            "and in pairs. Also: duplicate answers / answer + closing event in one chunk, rejection worlds x user actions, rejection + hang-up in one chunk (first cause), every write to the recorded fatal cause (never overwritten), Bluetooth calls against a silent proxy end exactly at their bound, and a peripheral drop reported with any reason code ends them at once with a library error; a first cause recorded without a fatal report (disconnect() giving up on a stalled connect, incl. a stalled Noise handshake) is carried by the connect waiter the following close ends. High-water sweep; sessions reopened from inside the stop callback; a peer answering 1-3 bytes of a reject and hanging up. Answer-at-the-deadline sweep with a timer-fire log deciding ties (a same-instant timeout excuses a waiter only if a timer actually ran before the fatal report; a cause recorded earlier than the first report is the first cause); sockets that answer ENOTCONN after a reset.",
+            "and in pairs. Also: duplicate answers / answer + closing event in one chunk, rejection worlds x user actions, rejection + hang-up in one chunk (first cause), every write to the recorded fatal cause (never overwritten), Bluetooth calls against a silent proxy end exactly at their bound, and a peripheral drop reported with any reason code ends them at once with a library error; a first cause recorded without a fatal report (disconnect() giving up on a stalled connect, incl. a stalled Noise handshake) is carried by the connect waiter the following close ends. High-water sweep; sessions reopened from inside the stop callback; a peer answering 1-3 bytes of a reject and hanging up. Answer-at-the-deadline sweep with a timer-fire log deciding ties (a same-instant timeout excuses a waiter only if a timer actually ran before the fatal report; a cause recorded earlier than the first report is the first cause); sockets that answer ENOTCONN after a reset. BLE status update in front of the answer; two rejections in order (hello, then login); hello-content sweep.",
             "runtime monitoring: virtual-time call recorder with bound table, error-class check, first-cause oracle and deadlock detector",
             "DESIGN.md §4 C09"),
     "C06": ("S", "exploration",
             "End-to-end APIClient.connect against the simulated device over the finite matrix of versions x names (API hello and Noise hello) x "
             "password verdicts x login x expected-name x framing x response packaging; outcome, error class (with received_name), final state and "
-            "stop-callback count judged by a decision function written from the statement. The matrix is enumerated completely at thorough. Also: hang-up (DisconnectRequest / garbage) right behind the last answer in the same chunk, and the expected name configured through the setter before the attempt or between its two phases; expected names in mixed / upper case and non-ASCII spellings against devices answering the same, the case-folded and a prefix spelling. Rejections answered exactly at the phase deadline or with the process stopped across it; an RST right behind the last answer; IPv6 sessions in rotation.",
+            "stop-callback count judged by a decision function written from the statement. The matrix is enumerated completely at thorough. Also: hang-up (DisconnectRequest / garbage) right behind the last answer in the same chunk, and the expected name configured through the setter before the attempt or between its two phases; expected names in mixed / upper case and non-ASCII spellings against devices answering the same, the case-folded and a prefix spelling. Rejections answered exactly at the phase deadline or with the process stopped across it; an RST right behind the last answer; IPv6 sessions in rotation. Announced names that extend the expected one (MAC-style / numeric suffix).",
             "runtime monitoring: outcome of real connect() per enumerated configuration row vs decision-function oracle",
             "DESIGN.md §4 C06"),
     "C10": ("S", "exploration",
@@ -92,25 +92,25 @@ CHECKS: dict[str, tuple[str, str, str, str, str]] = {
     "C13": ("T+S", "exploration",
             "Structural invariant check of the live module tables and compiled descriptors against the api.proto TEXT (independent parser): every "
             "declared message x every obligation, enumerated completely; plus direction monitors on the wire (device-side decode) and on "
-            "_add_message_callback during a sweep of every public APIClient method. The direction monitor also harvests the workloads of C12, C16, C17, C18, C19 and an API sweep against a device that never answers; a frame of every declared id is pushed through the receive path and must arrive as the class api.proto names, and frames with undeclared type numbers (incl. values equal to a declared id in their low byte / low 16 bits) select no class, are not answered and do not end the session, on both framings; effective packedness of every repeated field vs the [packed=...] option in the text. Public methods unknown to the recipe table are called with guessed arguments; every non-awaiting public method is also called with the device not reading and the (id, payload) sequence the slow device finally decodes is compared with a device that reads at once. Five public methods with arguments sized around 2^7 ... 2^21 serialized bytes (and the Noise limit): the device decodes the declared id and length; the structural walk runs first, so that a table lagging behind api.proto is reported rather than crashing the session workloads.",
+            "_add_message_callback during a sweep of every public APIClient method. The direction monitor also harvests the workloads of C12, C16, C17, C18, C19 and an API sweep against a device that never answers; a frame of every declared id is pushed through the receive path and must arrive as the class api.proto names, and frames with undeclared type numbers (incl. values equal to a declared id in their low byte / low 16 bits) select no class, are not answered and do not end the session, on both framings; effective packedness of every repeated field vs the [packed=...] option in the text. Public methods unknown to the recipe table are called with guessed arguments; every non-awaiting public method is also called with the device not reading and the (id, payload) sequence the slow device finally decodes is compared with a device that reads at once. Five public methods with arguments sized around 2^7 ... 2^21 serialized bytes (and the Noise limit): the device decodes the declared id and length; the structural walk runs first, so that a table lagging behind api.proto is reported rather than crashing the session workloads. All ids consecutively with one identical payload.",
             "runtime monitoring: invariant walk of live tables/descriptors vs independent .proto text parser + direction monitors during API sweep",
             "DESIGN.md §4 C13"),
     "C14": ("T+S", "exploration",
             "The real conversion code is run on descriptor-generated valid wire messages (each field at each boundary value, all declared and "
             "undeclared enum numbers, float32 specials + 200k/5M random bit patterns) and compared field by field with a descriptor-driven "
-            "expected value; enum member tables (incl. aliases) are compared with the wire enums; to_dict/from_dict round trips. Odd shards instantiate the model base classes first (process history); aliasing probes modify every mutable container of a result in place and convert again. Part S: models as returned by the public API on real sessions - 2-4 sessions answering device_info in one loop iteration, 2-5 same-type answers in one segment, concurrent entity lists, a camera frame after an unexpected session loss - compared field by field with the message that session's device sent. Messages carrying unknown fields; dictionary forms read back through dict subclasses; nested models judged under converters unknown by name.",
+            "expected value; enum member tables (incl. aliases) are compared with the wire enums; to_dict/from_dict round trips. Odd shards instantiate the model base classes first (process history); aliasing probes modify every mutable container of a result in place and convert again. Part S: models as returned by the public API on real sessions - 2-4 sessions answering device_info in one loop iteration, 2-5 same-type answers in one segment, concurrent entity lists, a camera frame after an unexpected session loss - compared field by field with the message that session's device sent. Messages carrying unknown fields; dictionary forms read back through dict subclasses; nested models judged under converters unknown by name. Repeated scalar fields likewise (shared containers show in the aliasing probe).",
             "runtime monitoring: differential check of real conversions vs descriptor-derived reference over generated inputs",
             "DESIGN.md §4 C14"),
     "C15": ("S", "exploration",
             "Every command method x every subset of optional arguments x falsy/typical/extreme values x API versions around each threshold is "
             "called on a live simulated session; the request decoded independently at the device is compared with the request predicted by a "
-            "declarative table written from api.proto (presence flags read from the .proto text) and the statement. One client over several sessions with different negotiated API versions (same service and entity keys) must encode per current session; two clients with different API versions alive at once; the same entity key called repeatedly with different argument subsets; arguments passed positionally in the published parameter order. All commands issued while the device is not reading and while the queue drains slowly (both framings) reach it as described, in call order. Identical commands repeated; every typical value in another legal Python form; sessions opened by connect() or start+finish, ended by disconnect() or by the device.",
+            "declarative table written from api.proto (presence flags read from the .proto text) and the statement. One client over several sessions with different negotiated API versions (same service and entity keys) must encode per current session; two clients with different API versions alive at once; the same entity key called repeatedly with different argument subsets; arguments passed positionally in the published parameter order. All commands issued while the device is not reading and while the queue drains slowly (both framings) reach it as described, in call order. Identical commands repeated; every typical value in another legal Python form; sessions opened by connect() or start+finish, ended by disconnect() or by the device. Old API versions with the name left out of the hello.",
             "runtime monitoring: wire monitor (independent decode at the simulated device) vs table-driven expected request, exhaustive argument subsets",
             "DESIGN.md §4 C15"),
     "C16": ("S", "exploration",
             "1-4 concurrent Bluetooth operations on a live simulated session with scripted reply orders; recorded arrival/completion history is "
             "judged per operation by a matching model (address, handle, type), with exact completion and timeout instants, the DISCONNECT-before-"
-            "timeout rule, and leftover probes (matching traffic after the end must reach no callback; handler table holds only documented survivors). Also: caller cancellation in the loop iteration in which the deciding answer arrives (ahead of it and behind it) and the documented clean-up (unsub + notify remove) executed from inside the connection-state callback; several replies in one chunk (answer followed by duplicate / GATT error / connection change); peripheral drops with every reason code; boundary addresses and handles; 24-150 operations outstanding at once. Operations started eagerly from inside the connection-state callback (same / other peripheral, reconnect after a drop) complete with their own answer only. Retry after an unanswered operation; every GATT error code of a list spanning the status byte, -1 and the int32 ends; replies seconds apart; replies from newer firmware (unknown fields).",
+            "timeout rule, and leftover probes (matching traffic after the end must reach no callback; handler table holds only documented survivors). Also: caller cancellation in the loop iteration in which the deciding answer arrives (ahead of it and behind it) and the documented clean-up (unsub + notify remove) executed from inside the connection-state callback; several replies in one chunk (answer followed by duplicate / GATT error / connection change); peripheral drops with every reason code; boundary addresses and handles; 24-150 operations outstanding at once. Operations started eagerly from inside the connection-state callback (same / other peripheral, reconnect after a drop) complete with their own answer only. Retry after an unanswered operation; every GATT error code of a list spanning the status byte, -1 and the int32 ends; replies seconds apart; replies from newer firmware (unknown fields). Cases with a connections-free subscription; firmware API 1.8 and older (rotation).",
             "runtime monitoring: recorded BLE operation history vs per-operation matching model + post-completion leftover probes",
             "DESIGN.md §4 C16"),
     "C17": ("S", "exploration",
@@ -127,7 +127,7 @@ CHECKS: dict[str, tuple[str, str, str, str, str]] = {
             "variants. An offline trace checker over the class-boundary log of every start_connection/finish_connection, the user callbacks, the "
             "harness calls, mDNS deliveries and fake-zeroconf listener/close logs judges: no overlapping attempts or connection objects, every "
             "attempt instant justified, exact due instant after each trigger (bounded progress in virtual time), callback alternation and counts, "
-            "and silence / no listener / zeroconf closed after stop(). Includes outages of > 1200 consecutive failed attempts (73 000-80 000 s), the device name assigned after construction or changed after a first listening period, a raising on_connect hook, a stale retry timer firing during a slow on_connect_error hook. Name given as ''; a matching record broadcast while the manager waits to retry must find a listener registered (boundary oracle, independent of delivery); the fake zeroconf caches records and replays them to a listener registered with a question, as python-zeroconf does.",
+            "and silence / no listener / zeroconf closed after stop(). Includes outages of > 1200 consecutive failed attempts (73 000-80 000 s), the device name assigned after construction or changed after a first listening period, a raising on_connect hook, a stale retry timer firing during a slow on_connect_error hook. Name given as ''; a matching record broadcast while the manager waits to retry must find a listener registered (boundary oracle, independent of delivery); the fake zeroconf caches records and replays them to a listener registered with a question, as python-zeroconf does. Node names with an underscore; firmware API 1.12 / 1.2.",
             "runtime monitoring: offline trace checker (justified attempt instants, bounded progress, alternation, stop) over recorded manager histories",
             "DESIGN.md §4 C18"),
     "C19": ("S", "exploration",
@@ -144,7 +144,7 @@ CHECKS: dict[str, tuple[str, str, str, str, str]] = {
             "getaddrinfo; returned addresses (or the addresses handed to the connect step and the TCP attempts made), the exact lookup-call trace "
             "and the close count of every zeroconf instance (supplied vs library-created) are compared with a reference resolver written from the "
             "statement: complete for <= 2 hosts over 8 host forms x mDNS x OS outcomes x 5 provisions, sampled for 3, cancellation / resolve timeout "
-            "mid-lookup, all ZeroconfManager operation sequences up to length 4 (quick) / 5 (thorough). Host forms include names below a sub-domain of .local and FQDNs containing .local.; OS answers include link-local addresses with a numeric scope and non-zero flowinfo; the same link-local text under two scopes (two literals / one mDNS answer). Scoped literals outside fe80::/10; a supplied zeroconf instance the application already shut down. Earlier resolutions of the same hosts through the same manager in another world (0-61 s before); mDNS answers as python-zeroconf's own address classes.",
+            "mid-lookup, all ZeroconfManager operation sequences up to length 4 (quick) / 5 (thorough). Host forms include names below a sub-domain of .local and FQDNs containing .local.; OS answers include link-local addresses with a numeric scope and non-zero flowinfo; the same link-local text under two scopes (two literals / one mDNS answer). Scoped literals outside fe80::/10; a supplied zeroconf instance the application already shut down. Earlier resolutions of the same hosts through the same manager in another world (0-61 s before); mDNS answers as python-zeroconf's own address classes. Node names with an underscore (bare and .local).",
             "runtime monitoring: result + lookup-call trace + per-instance close counters vs reference resolver, exhaustive small matrix",
             "DESIGN.md §4 C20"),
 }
